@@ -73,7 +73,7 @@ func c02Op(r *core.Rng) *OpDesc {
 	case 1:
 		return &OpDesc{Code: 9} // out-of-range built-in operator
 	case 2, 3:
-		return &OpDesc{User: true, Txt: []string{"~=", ":=", "≈", "EQ"}[r.Intn(4)], Ctx: "custom"}
+		return &OpDesc{User: true, Txt: []string{"~=", ":=", "≈", "EQ", "=", "<="}[r.Intn(6)], Ctx: "custom"}
 	}
 	return &OpDesc{Code: 1 + r.Intn(6)}
 }
@@ -151,6 +151,9 @@ func c02Run(c *core.Ctx, idx int) {
 			c.Count("trees.with-late-no-nesting")
 		}
 		c.Count("trees.random")
+	}
+	if SpiceErrs(uint64(c.Seed), idx, tree) {
+		c.Count("trees.with-left-over-errors")
 	}
 	if sp := core.NewRng(core.Mix(uint64(c.Seed)+0x5b1ce, uint64(idx))); sp.Chance(1, 6) {
 		// (own PRNG stream, so that the rest of the case is what it was without this step)
